@@ -122,6 +122,56 @@ def random_regexp(rnd, size, Sigma):
     return rx.Concat(l, r) if x < 0.66 else rx.Sum(l, r)
 
 
+def regexp_twin(rnd, r):
+    """a copy of r with one binary node switched between + and . (same shape, same leaves, usually another language)"""
+    nodes = []
+    def walk(x, path):
+        if isinstance(x, (rx.Sum, rx.Concat)):
+            nodes.append(path); walk(x.left, path + 'l'); walk(x.right, path + 'r')
+        elif isinstance(x, rx.Iteration): walk(x.operand, path + 'o')
+    walk(r, '')
+    if not nodes: return None
+    target = rnd.choice(nodes)
+    def rebuild(x, path):
+        if isinstance(x, (rx.Sum, rx.Concat)):
+            l, r_ = rebuild(x.left, path + 'l'), rebuild(x.right, path + 'r')
+            cls = type(x)
+            if path == target: cls = rx.Concat if isinstance(x, rx.Sum) else rx.Sum
+            return cls(l, r_)
+        if isinstance(x, rx.Iteration): return rx.Iteration(rebuild(x.operand, path + 'o'))
+        return x
+    return rebuild(r, '')
+
+
+def regexp_pool_combo(rnd, Sigma=('a', 'b'), depth=2):
+    """expressions assembled from a pool of small 'interesting' pieces (1, 0, letters, starred letters, optional letters): the shapes that
+    special-casing in a simplifier or in the Thompson construction would touch (1 + x, x*.y, (1 + x)*, x + x, ...)"""
+    a, b = rx.Symbol(Sigma[0]), rx.Symbol(Sigma[1])
+    pool = [rx.One(), rx.Zero(), a, b, rx.Iteration(a), rx.Iteration(b), rx.Sum(rx.One(), a), rx.Sum(b, rx.One()), rx.Concat(a, b), rx.Iteration(rx.Concat(a, b)), rx.Sum(a, b)]
+    def build(d):
+        if d == 0 or rnd.random() < 0.25: return rnd.choice(pool)
+        x = rnd.random()
+        if x < 0.2: return rx.Iteration(build(d - 1))
+        l, r_ = build(d - 1), build(d - 1)
+        return rx.Sum(l, r_) if x < 0.6 else rx.Concat(l, r_)
+    return build(depth)
+
+
+def regexp_templates(Sigma=('a', 'b')):
+    """every expression op1(p1, op2(p2, p3)) and op1(op2(p1, p2), p3), optionally starred, with the pieces from {1, a, b, a*, 1+a}: all two-level
+    combinations of the shapes that special cases in a construction would single out"""
+    a, b = rx.Symbol(Sigma[0]), rx.Symbol(Sigma[1])
+    pool = [rx.One(), a, b, rx.Iteration(a), rx.Sum(rx.One(), a)]
+    ops = [rx.Sum, rx.Concat]
+    for p1 in pool:
+        for p2 in pool:
+            for p3 in pool:
+                for o1 in ops:
+                    for o2 in ops:
+                        yield o1(p1, o2(p2, p3)); yield o1(o2(p1, p2), p3)
+                        yield rx.Iteration(o1(p1, o2(p2, p3)))
+
+
 def mk_cfg(rules, S=None, V=None, Sigma=None, eps='ε'):
     """rules: list of (variable, [symbols]); symbols that are rule heads (or in V) are variables"""
     heads = [a for a, _ in rules]
